@@ -60,6 +60,8 @@ var checks = map[string]*check{
 			{Name: "routing-2id", Kind: "explore", Scen: "grpc_route", Inst: inst("pairs", "pairs-all"), Depths: depths([]int{1}, []int{1, 2}), Budget: budget(3*time.Minute, 25*time.Minute)},
 			// the real host against a hand-written gRPC plugin that announces four brokered servers and ends the broker stream at once
 			{Name: "hand-written-peer", Kind: "explore", Scen: "raw_grpc_peer", Inst: inst("broker-eos", "broker-eos"), Depths: depths([]int{2}, []int{2, 3}), Budget: budget(2*time.Minute, 10*time.Minute)},
+			// ... and whose announcements carry an empty knock sub-message (a legal wire encoding of the same announcement)
+			{Name: "hand-written-peer-encoding", Kind: "explore", Scen: "raw_grpc_peer", Inst: inst("broker-emptyknock", "broker-emptyknock"), Depths: depths([]int{1}, []int{1, 2}), Budget: budget(2*time.Minute, 10*time.Minute)},
 			// fine-grained preemption (every function entry of go-plugin, and grpc.Dial, is a scheduling point): two ids
 			// dialled at once with one shared option slice
 			{Name: "fine-grained", Kind: "explore", Scen: "grpc_route", Inst: inst("fine", "fine"), Depths: depths([]int{2}, []int{2, 3}), Budget: budget(4*time.Minute, 30*time.Minute)},
